@@ -154,7 +154,7 @@ def _construct_builtin_modules(
         (parse.parse_number(k), _construct_builtin_module(v, keys + [k]))
         for k, v in data.items()
     ]
-    table = [(AS.Integer(k), hash(k), v) for k, v in mapping]
+    table = [(AS.Integer(k), k, v) for k, v in mapping]
     return AS.Dict(table)
 
 
